@@ -4,7 +4,7 @@ from ..net import *
 
 ID = "C16"
 LEVEL = "fault_enumeration"
-RULE = ("8 small models (chain; loop with tank; pump + tank with level controls that force re-solves; PDD; isolated part; report "
+RULE = ("9 small models (chain; head pump driven beyond its curve; loop with tank; pump + tank with level controls that force re-solves; PDD; isolated part; report "
         "step 2 h with 1 h hydraulic step; 'ALL' reporting with an off-grid time control).  For each the fault-free run is "
         "recorded (N nonlinear solves incl. re-solves).  EVERY single fault = (solve index k in 1..N) x kind {iteration limit: the "
         "k-th NewtonSolver.solve runs with maxiter=1 (also with the line search off / starting after the limit, maxiter=2); singular Jacobian: the k-th solve sees a Jacobian with a zeroed row (from its first or from its second iteration on), which "
@@ -28,6 +28,9 @@ def models():
                                   {"kind": "level", "node": "T", "rel": "<", "thr": 1.5, "link": "pu", "value": "OPEN"}])
     M["pdd"] = spec([R("R", 25.0), J("J1"), J("J2", 8.0, [[0.03, None, None]])], [P("p1", "R", "J1"), P("p2", "J1", "J2", D=0.15)],
                     OPTS(dur=3 * 3600, dm="PDD", pmin=0.0, preq=20.0, pexp=0.5))
+    # a head pump that the peak demand drives beyond the flow at which its curve reaches zero head (the run only warns)
+    M["pump_overdriven"] = spec([R("R", 30.0), J("J1", 0.0, [[0.0, None, None]]), J("J2", 2.0, [[0.03, "PK", None]])],
+                                [HP("pu", "R", "J1", [[0.05, 20.0]]), P("p2", "J1", "J2", L=100.0)], OPTS(dur=3 * 3600), patterns={"PK": [1.0, 1.0, 6.0, 1.0]})
     M["isolated"] = spec([R("R"), J("J1"), J("J2", 5.0), J("J3", 2.0)],
                          [P("p1", "R", "J1"), P("p2", "J1", "J2"), P("p3", "J2", "J3", status="CLOSED")], OPTS(dur=3 * 3600),
                          controls=[{"kind": "time", "t": 7200, "link": "p3", "value": "OPEN"}])
@@ -205,7 +208,7 @@ def cases(tier):
     # shape of the fault-free result tables over the time options: duration (zero, shorter than a step, off the grid), hydraulic
     # step, report step (equal, multiple, not a multiple of the hydraulic step, 'ALL')
     durs = (0, 1800, 3600, 16200, 21600) if tier == "quick" else (0, 1, 1800, 3600, 5400, 16200, 21600, 30000)
-    for name in ("looptank", "pumpctl", "all_offgrid") if tier == "quick" else ("chain", "looptank", "pumpctl", "pdd", "isolated", "all_offgrid", "resolve"):
+    for name in ("looptank", "pumpctl", "all_offgrid", "pump_overdriven") if tier == "quick" else ("chain", "looptank", "pumpctl", "pdd", "isolated", "all_offgrid", "resolve", "pump_overdriven"):
         for dur, hyd, rep in itertools.product(durs, (3600, 1800, 2700), (None, 7200, 5400, 900, "ALL")):
             out.append({"model": name, "mode": "shape", "dur": dur, "hyd": hyd, "rep": rep})
     # the documented SciPy solver (scipy.optimize.fsolve) as the solver, and as the backup of a Newton solver whose every solve
